@@ -9,7 +9,9 @@
              the types used (cold) or empty (warm);
      part 1  no data race whose stack lies in schema.ParseWithSpecialTableName (the getOrParse
              hazard of Props_C07.c07_getorparse_caveat_refuted, observed by the race detector);
-     part 2  (rounds with a shared Or-first Session handle) no race inside clause.Where.Build. *)
+     part 2  (rounds with a shared Or-first Session handle) no race inside clause.Where.Build;
+     part 3  (PrepareStmt rounds whose pool is smaller than the number of goroutines, with
+             transactions) the round does not hang. *)
 From Verif Require Export Base C07_Model.
 Open Scope Z_scope.
 
@@ -147,8 +149,9 @@ Definition spec_holds (c : case) : bool :=
           && (o_final_c c =? o_final_s c)
           && winners_ok (o_events c) []
           && no_race_cat c 1)
-  | S O => no_race_cat c 0
-  | _ => no_race_cat c 3
+  | 1%nat => no_race_cat c 0
+  | 2%nat => no_race_cat c 3
+  | _ => o_bad c =? 0
   end.
 
 Definition check_case (c : case) : N := code_of (model_agrees c) (spec_holds c).
